@@ -150,6 +150,31 @@ def get_facts(config='default', release=False, repo=None):
     return F
 
 
+def get_dep_facts(repo=None):
+    """Facts of the two runtime dependencies at their locked versions (thorough tier)."""
+    import facts as factsmod
+    repo = repo or REPO
+    dh = ensure_driver()
+    th = hash_tree(repo, ['Cargo.toml', 'Cargo.lock'])
+    d = os.path.join(CACHE, 'facts', 'deps-%s-%s' % (th, dh[:8]))
+    os.makedirs(d, exist_ok=True)
+    lock = open(os.path.join(d, 'lock'), 'w')
+    fcntl.flock(lock, fcntl.LOCK_EX)
+    try:
+        if not (os.path.exists(os.path.join(d, 'rosu_map.json')) and os.path.exists(os.path.join(d, 'rosu_mods.json'))):
+            r = run_driver(repo, d, [], crates='rosu_map,rosu_mods', all_crates=True)
+            if r.returncode != 0:
+                raise FactsError('dependency scan failed:\n%s' % r.stdout[-2000:])
+    finally:
+        fcntl.flock(lock, fcntl.LOCK_UN)
+    out = []
+    for c in ('rosu_map', 'rosu_mods'):
+        F = factsmod.load(os.path.join(d, c + '.json'))
+        F.config = 'dep'
+        out.append(F)
+    return out
+
+
 def prune_cache(keep=6):
     base = os.path.join(CACHE, 'facts')
     try:
@@ -315,6 +340,21 @@ def main(argv):
         print('VIOLATION property=%s replay=%s' % (prop, rp))
         write_evidence(prop, tier, seed, None, time.time() - t0, 1, [], error=str(e)[-1500:], mod=None)
         return 1
+    if tier == 'thorough' and not a.replay and not os.environ.get('RPP_NO_SELFTEST') and REPO == '/repo':
+        # E5: every rule must fire on its seeded mutant (scratch copies outside /repo and /verif, removed at once)
+        try:
+            sys.path.insert(0, os.path.join(VERIF, 'selftest'))
+            import run as selftest_run
+            res = selftest_run.run(props=[prop], jobs=min(12, os.cpu_count() or 4))
+            for r in res:
+                ctx.selftests.append({'mutant': r['id'], 'status': r['status'], 'detail': (r.get('how') or r.get('why') or '')[:200]})
+                if r['status'] in ('MISSED', 'broken-mutant'):
+                    print('SELFTEST-WARNING: mutant %s was not reported (%s) — the rule is weaker than designed' % (r['id'], r.get('why', '')[:200]))
+            print('self-test mutants for %s: %d caught, %d skipped, %d missed' % (
+                prop, sum(r['status'] == 'caught' for r in res), sum(r['status'] == 'skipped' for r in res),
+                sum(r['status'] in ('MISSED', 'broken-mutant') for r in res)))
+        except Exception as e:  # noqa
+            print('self-test runner unavailable: %s' % e)
     known = load_known()
     kf = {(k['rule'], k['key']): k for k in known if k['property'] == prop and k.get('status') == 'finding'}
     viol = [o for o in ctx.obs if o['status'] == 'violation']
